@@ -9,6 +9,10 @@ CLAIMED = {
         'the normalised integer lattice and an edge-case alphabet is pushed through every public product and quaternion->matrix route; '
         'the BFS must close on exactly |G| states and every edge satisfies the homomorphism law. Finite-group closure turns "for all p, q" into a table that is walked completely.',
    note='Bounded to the listed alphabets (about 1 000 quaternions, 60 000 ordered pairs per menu entry); tolerance 1e-12; trusted: mc/ref/quat.py, NumPy.'),
+ 'C09': dict(cat='model_checking', tech='complete triple and pair tables of finite quaternion groups and an integer lattice, walked through the library product',
+   text='All triples of the binary octahedral group, of a 30-element conjugated icosahedral sub-alphabet and of a generic coset, all pairs over group elements and exactly representable non-unit lattice quaternions, '
+        'every non-zero alphabet element for the inverse, and every element in both storage orders are executed on the real operators and compared with a reference Hamilton product. Finite closed groups make the universally quantified algebra laws a finite table.',
+   note='Bounded to the alphabets; 1e-12 tolerance; known finding: non-unit inverse (test-pinned). Trusted: mc/ref/quat.py.'),
 }
 PENDING_REASON = 'check not built yet in this session (planned in DESIGN.md section 3); not claimed until it runs clean'
 
